@@ -166,6 +166,20 @@ var _ rpc.Resources
 //@   loop 1 let M = s.refs
 //@   loop 1 assume forall a string :: has(M, a) ==> M[a] != nil && M[a].sub != nil
 
+// subscribe: an existing subscription of the connection is reused (one more use), otherwise a new
+// one is created, counted, handed to the cache and registered under the id the client used.
+// Open finding F17: a subscription whose resource was deleted is kept in the table while a
+// parent still references it, and is reused here - stale and cut off from events - when the
+// client subscribes to the re-created resource.
+//@ func (*wsConn).subscribe
+//@   inline
+//@   requires predConnOK(c)
+//@   assumes predSubsOK(c) && c.subs != nil
+//@   ensures[C08] result1 == nil ==> result0 != nil && has(c.subs, rid) && c.subs[rid] == result0 && result0.c == c
+//@   ensures[C08] !old(has(c.subs, rid)) ==> result1 == nil && fresh(result0) && result0.rid == rid
+//@   ensures[C03] result1 == nil ==> result0.state != stateDeleted
+//@   safety[C15]
+
 //@ func (*wsConn).addCount
 //@   requires s != nil
 //@   ensures[C08] direct && old(s.direct) >= 256 ==> result != nil && s.direct == old(s.direct)
